@@ -259,6 +259,63 @@ func languageOrders(r *ev.Run, langs []langCase, n *int64) {
 	}
 }
 
+// languageChurn: reports in 5,000 (thorough 70,000) distinct language tags, one after the other in
+// one process; every 61st step the English, Japanese, undetermined and two earlier tags are asked
+// again and must give the report they gave at the start (round 6, C17-B-r6: a bounded table of
+// resolved languages whose positions drift after its first eviction at 4,096 tags).
+func languageChurn(r *ev.Run, thorough bool, n *int64) {
+	steps := 5000
+	if thorough {
+		steps = 70000
+	}
+	bg := reportBackgrounds()[0]
+	s := canonicalWritten(3, 2, bg.ver, bg.tok)
+	em, err := v3.NewEnvironmental().Decode(s)
+	if err != nil {
+		return
+	}
+	rep := func(l language.Tag) string {
+		return dump.Of(report.NewEnvironmental(em, report.WithOptionsLanguage(l)))
+	}
+	refEn, refJa := rep(language.English), rep(language.Japanese)
+	var recent []language.Tag
+	for i := 1; i <= steps; i++ {
+		t, err := language.Parse(fmt.Sprintf("%s-x-n%05d", []string{"de", "fr", "zh", "und", "ko"}[i%5], i))
+		if err != nil {
+			continue
+		}
+		*n++
+		if i%7 == 0 {
+			if got := rep(t); got != refEn {
+				r.Violate(ev.Violation{Kind: "report-not-in-english-for-another-language", Case: map[string]any{"vector": s, "language": t.String(), "distinct_language_tags_used_so_far": i}, Observed: got, Expected: refEn})
+				return
+			}
+		} else {
+			report.NewBase(em.BaseMetrics(), report.WithOptionsLanguage(t))
+		}
+		recent = append(recent, t)
+		if i%61 == 0 || i == steps {
+			bad := ""
+			switch {
+			case rep(language.English) != refEn:
+				bad = "the English report changed"
+			case rep(language.Japanese) != refJa:
+				bad = "the Japanese report changed"
+			case rep(language.Und) != refEn:
+				bad = "the report for the undetermined language is no longer the English one"
+			case rep(recent[len(recent)-1]) != refEn, rep(recent[len(recent)/2]) != refEn:
+				bad = "the report for a language tag used before is no longer the English one"
+			}
+			*n += 5
+			if bad != "" {
+				r.Violate(ev.Violation{Kind: "report-changes-after-many-language-tags", Case: map[string]any{"vector": s, "distinct_language_tags_used_so_far": i, "tags": "de-x-n00001, fr-x-n00002, zh-x-n00003, ... (one report each)"}, Observed: bad, Expected: "a report does not depend on which other languages the process asked for before"})
+				return
+			}
+		}
+	}
+	r.Set("language_churn_distinct_tags", steps)
+}
+
 // optionLists: every list of one to three language options over {en, ja, fr, und} (84 lists) at
 // every report constructor.  What several language options mean is not spelled out by the
 // property, so the oracle is deliberately weak: (a) the whole report — the outer level and both
@@ -554,6 +611,7 @@ func init() {
 			historyAndEnvironment(r, es, []string{"v2-first", "both"})
 		})
 		r.Phase("language orders", func() { languageOrders(r, langs, &n) })
+		r.Phase("language churn", func() { languageChurn(r, thorough, &n) })
 		r.Phase("reports after field assignment", func() { reportsAfterAssignment(r, langs[:3], &n) })
 		r.Phase("language option lists", func() { optionLists(r, &n) })
 		for bi, bg := range reportBackgrounds() {
